@@ -53,6 +53,124 @@ def to_schedule(beh, keyof, tag):
     return steps
 
 
+EV = {"Queue.before": "QB", "Queue.after": "QA", "RequestFlush.enter": "EN", "RequestFlush.early": "EA", "RequestFlush.push": "PU",
+      "RequestFlush.pushed": "PD", "RequestFlush.done": "DN", "WriteCSM.afterFlush": "RT"}
+LOOPEV = {"SyncWAL.flushReq": "TK", "SyncWAL.flushReq.flushed": "FL", "SyncWAL.tickWAL": "TW", "FlushToWAL.count": "CT", "Flush.synced": "SY",
+          "Flush.primary": "PR"}
+TRACE_POINTS = ["Queue.", "RequestFlush.", "WriteCSM.afterFlush", "SyncWAL.flushReq", "SyncWAL.tickWAL", "FlushToWAL.count", "Flush."]
+
+
+def abstract_trace(events, writers):
+    """hook log -> events of Writers_Trace.tla"""
+    out, cur = [], {}
+    last_loop = None
+    for e in events:
+        a, p, args = e["actor"], e["point"], e["args"]
+        if p == "op.begin":
+            cur[a] = "%s.%s" % (a, args)
+            continue
+        if p == "op.end":
+            continue
+        if a in writers:
+            if p in EV and a in cur:
+                out.append({"e": EV[p], "r": cur[a], "w": a})
+            continue
+        if p not in LOOPEV:
+            continue
+        ev = LOOPEV[p]
+        if ev == "CT":
+            if last_loop not in ("TK", "TW"):
+                out.append({"e": "TW"})      # a flush not announced by a take / timer point (the channel-nearly-full check): like a timer flush
+            out.append({"e": "CT", "n": int(args)})
+        elif ev == "PR":
+            w = [x for x in writers if args.startswith("W%s/" % x)]
+            if not w:
+                continue
+            out.append({"e": "PR", "w": w[0]})
+        else:
+            out.append({"e": ev})
+        last_loop = ev
+    return out
+
+
+def tlc_trace(res, ab, monitor, label):
+    nd = "".join(json.dumps(x) + "\n" for x in ab)
+    r = vlib.run_tlc("Writers_Trace", "wtrace.cfg", cfg_text=vlib.cfg_text(dict(Monitor="TRUE" if monitor else "FALSE"), invariants=["EmitAcc"]),
+                     files={"writers_trace.ndjson": nd}, timeout=600, workers=4)
+    vlib.tlc_ok(r, "Writers_Trace " + label)
+    res.tlc(r, "Writers_Trace/" + label)
+    return r["records"].get("ACC", [])
+
+
+def trace_validation(res, binary, rng, ntraces, known):
+    writers = ["c1", "c2", "c3", "c4"]
+    stats = dict(traces=0, accepted=0, events=0, early_returns=0, early_returns_not_durable=0, drift=0)
+    for ti in range(ntraces):
+        root = os.path.join(vlib.scratch(), "c07tr_%d" % ti)
+        keyof = {c: "W%s/1Min/G" % c for c in writers}
+        ops = [{"op": "start", "root": root, "loop_wal_ms": rng.choice([1, 2, 5]), "loop_prim_ms": 600000}]
+        for c in writers:
+            ops.append({"op": "create", "key": keyof[c] + ":Symbol/Timeframe/AttributeGroup", "names": ["V"], "types": ["i8"]})
+        actors = {}
+        nreq = rng.choice([3, 4, 5])
+        for c in writers:
+            actors[c] = []
+            for k in range(nreq):
+                actors[c].append({"op": "write", "via": "csm", "buckets": [{"key": keyof[c], "cols": [
+                    {"name": "Epoch", "type": "i8", "vals": [EPOCH + 60 * (10 * int(c[1:]) + k)]}, {"name": "V", "type": "i8", "vals": [value_of(c, k + 2)]}]}]})
+        ops.append({"op": "trace", "x": {"actors": actors, "points": TRACE_POINTS, "background": {"SyncWAL.": "loop", "FlushToWAL.": "loop", "Flush.": "loop"}}})
+        ops.append({"op": "shutdown"})
+        obs = vlib.run_cases(binary, [{"id": "t", "ops": ops}], timeout=300, tag="c07tr")
+        shutil.rmtree(root, ignore_errors=True)
+        o = obs.get(json.dumps("t"))
+        if o is None or (isinstance(o, dict) and "died" in o):
+            res.violation("the server died under free-running concurrent writers: %s" % str(o)[-400:], {"check": "writers.trace", "seed": vlib.seed()})
+            continue
+        tr = o[1 + len(writers)]
+        werr = [ob.get("err") or ob.get("panic") for a, obl in (tr.get("actors") or {}).items() for ob in obl if ob.get("err") or ob.get("panic")]
+        if werr:
+            raise Undecided("a free-running write failed: %s" % werr[:2])
+        ab = abstract_trace(tr["events"], writers)
+        stats["traces"] += 1
+        stats["events"] += len(ab)
+        replay = {"check": "writers.trace", "abstract_trace": ab, "seed": vlib.seed()}
+        acc = tlc_trace(res, ab, True, "monitor")
+        if acc:
+            stats["accepted"] += 1
+            res.cov["traces_validated_against_impl"] += 1
+            stats["early_returns"] += min(len(a["early"]) for a in acc)
+            nbad = min(len(a["earlybad"]) for a in acc)
+            stats["early_returns_not_durable"] += nbad
+            if nbad and "EarlyReturn" in known:
+                best = min(acc, key=lambda a: len(a["earlybad"]))
+                res.known_finding(known["EarlyReturn"], {"free_running_trace": True, "requests_returned_early_before_their_fsync": best["earlybad"]})
+            elif nbad:
+                res.violation("free-running trace: requests %s returned through the early-return path before their data was fsynced and visible" % (
+                    min(acc, key=lambda a: len(a["earlybad"]))["earlybad"]), replay)
+            continue
+        acc2 = tlc_trace(res, ab, False, "no-monitor")
+        if acc2:
+            res.violation("free-running trace of %d events: the recorded order of hook points is a behaviour of the write-path model only if some "
+                          "request returns success before its data is in the fsynced WAL and in the primary file (no interpretation of the internal "
+                          "channel steps satisfies the property)" % len(ab), replay)
+        else:
+            stats["drift"] += 1
+            # how far can the model follow?  (bisect on the accepted prefix)
+            lo, hi = 0, len(ab)
+            while lo < hi:
+                mid = (lo + hi + 1) // 2
+                if tlc_trace(res, ab[:mid], False, "prefix"):
+                    lo = mid
+                else:
+                    hi = mid - 1
+            res.cov.setdefault("trace_drift_examples", [])
+            if len(res.cov["trace_drift_examples"]) < 3:
+                res.cov["trace_drift_examples"].append({"accepted_prefix": lo, "next_events": ab[max(0, lo - 3):lo + 2]})
+    if stats["traces"] and stats["accepted"] == 0 and not res.violations:
+        raise Undecided("SPEC-DRIFT: none of %d free-running traces is a behaviour of Writers_Trace.tla: %s" % (stats["traces"], res.cov.get("trace_drift_examples")))
+    return stats
+
+
 def run(prop, tier):
     res = Result(prop, tier)
     rng = random.Random(vlib.seed() * 32452843 + 7)
@@ -141,7 +259,10 @@ def run(prop, tier):
             passed = (play.get("passed") or {}).get(c) or []
             what = "writer %s returned success but the query it issued right after the return %s its row and its record is %s the WAL file" % (
                 c, "sees" if vis else "does not see", "in" if inwal else "not in")
-            if "RequestFlush.early" in passed and "EarlyReturn" in known:
+            # the known defect: the writer saw ANOTHER FLUSH REQUEST QUEUED and returned without waiting (the hook reports how many
+            # requests it saw; in a forced schedule nobody else runs between the test and the hook)
+            seen_queued = [int(x.split("|")[1]) for x in passed if x.startswith("RequestFlush.early|") and x.split("|")[1].isdigit()]
+            if seen_queued and seen_queued[-1] > 0 and "EarlyReturn" in known:
                 res.known_finding(known["EarlyReturn"], {"schedule": [(s_["actor"], s_["until"]) for s_ in sched][:14], "writer": c, "path": "RequestFlush.early"})
             else:
                 res.violation(what + " (hook points passed by the writer: %s; schedule %s%s)" % (
@@ -185,6 +306,10 @@ def run(prop, tier):
             else:
                 res.violation(what + " (schedule forced with gates)", replay)
         res.sample({"schedule": [(s["actor"], s["until"]) for s in sched]}, limit=2)
+    # ---- E3: free-running executions validated against Writers_Trace.tla (code -> spec) ----
+    ntr = 3 if quick else 25
+    tv = trace_validation(res, binary, rng, ntr, known)
+    res.cov["free_running_traces"] = tv
     res.cov["schedules_played"] = played
     res.cov["schedules_infeasible_on_real_code"] = drifts
     if played < max(3, len(meta) // 3) and not res.violations:
